@@ -764,7 +764,7 @@ func runC03(c *Ctx) {
 		"x 6 geometries (width 0 / natural / 2x / 3x+7, height 1 / 50, margin default / larger) x 2 binarizers; separate stream of contents the writers must refuse; " +
 		"module-level decoders vs real readers on independently drawn (also invalid) symbols; non-trivial = distinct op/oracle input"
 	c03Tables(c)
-	n := c.Pick(120, 3000)
+	n := c.Pick(300, 4000)
 	syms := c03Syms()
 	r := c.Rng
 	type job struct {
